@@ -763,7 +763,8 @@ export class NeverRuntype extends BaseRuntype {
     return "never";
   }
   schema(_ctx: SchemaContext): JSONSchema7 {
-    return annotateSchema(this.metadata, { anyOf: [] });
+    // `anyOf: []` is not well-formed (Draft 2020-12 wants a non-empty array); `not: {}` accepts nothing
+    return annotateSchema(this.metadata, { not: {} });
   }
   validate(_ctx: ValidateContext, _input: unknown): boolean {
     return false;
